@@ -49,8 +49,8 @@ add('blake.blake:Blake', {'geometry': g, 'ref_density': ref, 'cavity_radius': ca
 G_, Y_, up = R('G'), R('Y'), R('up')
 add('ep_piston.ep_piston:EPpiston', {'G': G_, 'Y': Y_, 'rho0': rho0, 'up': up}, sp.And(G_ > 0, Y_ > 0, rho0 > 0, up >= 0), 'G, Y, rho0 > 0; up >= 0')
 Dd, r0_, xt, xm, tm = R('D'), R('rho_0'), R('xtilde'), R('xmax'), R('tmax')
-add('ehep.ehep:EscapeOfHEProducts', {'D': Dd, 'rho_0': r0_, 'up': up, 'xtilde': xt, 'xmax': xm, 'tmax': tm, 'gamma': sp.Integer(3)},
-    sp.And(Dd > 0, r0_ > 0, up >= 0, up < Dd / 4, xt > 0, xt <= xm, tm > 0), 'as in the error messages (gamma = 3)')
+add('ehep.ehep:EscapeOfHEProducts', {'D': Dd, 'rho_0': r0_, 'up': up, 'xtilde': xt, 'xmax': xm, 'tmax': tm, 'gamma': gamma},
+    sp.And(Dd > 0, r0_ > 0, up >= 0, up < Dd / 4, xt > 0, xt <= xm, tm > 0, sp.Eq(gamma, 3)), "as in the error messages; parameter description: 'adiabatic index, must be 3.0' (p_rho hard-codes the gamma = 3 isentrope)")
 add('sdrz.sdrz:SteadyDetonationReactionZone', {'geometry': g, 'D': Dd, 'rho_0': r0_, 'gamma': gamma}, sp.And(member(g, (1,)), Dd > 0, r0_ > 0, gamma > 0), 'D, rho_0, gamma positive; geometry 1', finite={g: (1, 2, 3)})
 om_, eb = R('omega'), R('eblast')
 add('sedov.sedov:Sedov', {'geometry': g, 'gamma': gamma, 'rho0': rho0, 'omega': om_, 'eblast': eb},
